@@ -1,6 +1,7 @@
 mod entropy;
 mod exec;
 mod gen;
+mod io;
 mod model;
 mod rng;
 mod runner;
@@ -187,6 +188,22 @@ fn prop_cfg(prop: Prop) -> Option<PropCfg> {
             "connections of every version 1.14-1.20 (and requests outside the range) running the mixed profile; non-trivial when a payload crossed epochs, a version gate closed a connection, a handshake was refused or a call/abort was down-translated; distinct = distinct broker linearisation signatures",
             "exploration",
         ),
+        Prop::C14 => PropCfg {
+            harness: io::io_harness,
+            nontrivial: |st| st.nontrivial,
+            rule: "message sequences (5-byte frames up to beyond the 64 KiB reserve step; one >4 MiB frame per ~400 thorough runs) pushed (a) through the real Packetizer via extend_from_slice or spare_capacity_mut+bytes_written in PRNG-sized pieces down to 1 byte, (b) through two real TokioTransports joined by a simulated byte pipe whose every poll_read/poll_write/poll_flush result (size, Pending, capacity 1..64 KiB, EOF at a byte offset, zero-length write, I/O error at the k-th operation) is drawn from the per-run PRNG; non-trivial when at least 2 messages were sent and at least one short read/write, Pending or full pipe occurred; distinct = distinct sequences of I/O return sizes",
+            level: "exploration",
+            quick: (150_000, 25.0),
+            thorough: (20_000_000, 480.0),
+            components_real: &[
+                "aldrin_core::message::Packetizer (both input interfaces)",
+                "aldrin_core::tokio::TokioTransport (receive_poll, send_poll_ready, send_start, send_poll_flush)",
+                "aldrin_core::transport::AsyncTransportExt futures",
+                "message serializer / deserializer",
+            ],
+            components_stub: &["the I/O object: simulated byte pipe implementing tokio::io::AsyncRead + AsyncWrite", "sender and receiver tasks"],
+            assumptions: &["the I/O object is a reliable ordered byte stream (bytes are neither lost nor reordered inside the pipe)", "one direction per transport pair is exercised at a time"],
+        },
         _ => return None,
     })
 }
@@ -441,7 +458,7 @@ fn cmd_selftest_determinism(opts: &std::collections::HashMap<String, String>) ->
     let n: u64 = opts.get("seeds").and_then(|s| s.parse().ok()).unwrap_or(200);
     let base: u64 = opts.get("seed").and_then(|s| s.parse().ok()).unwrap_or(1);
     let mut bad = 0;
-    let props = [Prop::C02, Prop::C03, Prop::C04, Prop::C05, Prop::C09, Prop::C10, Prop::C11, Prop::C12];
+    let props = [Prop::C02, Prop::C03, Prop::C04, Prop::C05, Prop::C09, Prop::C10, Prop::C11, Prop::C12, Prop::C14];
     let mut table = Vec::new();
     for prop in props {
         let Some(cfg) = prop_cfg(prop) else { continue };
